@@ -410,3 +410,107 @@ package cache
 //@   safety C15
 //@   opt no-frame
 //@   requires c != nil
+
+// ---- LFU: a list of frequency nodes in ascending frequency; each node holds its items in access order ----
+// (no `impl policy by *lfu`: the policy has no counter that pcount could be defined by; what the cache needs of the set
+// of tracked items is stated on the methods themselves, the cardinality link stays an assumption for this policy)
+//@ spec fn fpOf(fe *list.Element) *frequencyParent = dyn(fe.Value, *frequencyParent)
+// filed(c, fe, it): item it is filed under frequency node fe of c;  lfuhas(c, it): it is filed under the node it points to
+//@ spec fn filed(c *lfu, fe *list.Element, it *cacheItem) bool = fe != nil && c.frequencies != nil && elist(fe) == c.frequencies && it in fpOf(fe).entries
+//@ spec fn lfuhas(c *lfu, it *cacheItem) bool = it != nil && filed(c, it.parent, it)
+//@ spec fn fnode(c *lfu, fe *list.Element) bool = fe != nil && valid(fe) && istype(fe.Value, *frequencyParent) && fpOf(fe) != nil && valid(fpOf(fe)) && fpOf(fe).entries != nil && valid(fpOf(fe).entries) && fpOf(fe).byAccess != nil && valid(fpOf(fe).byAccess) && fpOf(fe).byAccess != c.frequencies && len(fpOf(fe).entries) >= 1 && llen(fpOf(fe).byAccess) == len(fpOf(fe).entries) && fpOf(fe).frequency >= 1
+// lfunodes: the list of frequency nodes - every node well-formed and non-empty, frequencies strictly ascending, nodes share nothing
+//@ spec fn lfunodes(c *lfu) bool = c.frequencies != nil && llen(c.frequencies) >= 0 && (forall fe *list.Element :: elist(fe) == c.frequencies ==> fnode(c, fe)) && (forall a *list.Element, b *list.Element :: elist(a) == c.frequencies && elist(b) == c.frequencies && erank(a) < erank(b) ==> fpOf(a).frequency < fpOf(b).frequency) && (forall a *list.Element, b *list.Element :: elist(a) == c.frequencies && elist(b) == c.frequencies && a != b ==> erank(a) != erank(b) && fpOf(a) != fpOf(b) && fpOf(a).byAccess != fpOf(b).byAccess && fpOf(a).entries != fpOf(b).entries)
+// lfufiles: a node's entries map and its access list describe the same items
+//@ spec fn lfufiles(c *lfu) bool = (forall fe *list.Element, it *cacheItem :: filed(c, fe, it) ==> it != nil && valid(it) && fpOf(fe).entries[it] != nil && valid(fpOf(fe).entries[it]) && elist(fpOf(fe).entries[it]) == fpOf(fe).byAccess && istype(fpOf(fe).entries[it].Value, *cacheItem) && dyn(fpOf(fe).entries[it].Value, *cacheItem) == it) && (forall fe *list.Element, ae *list.Element :: fe != nil && elist(fe) == c.frequencies && elist(ae) == fpOf(fe).byAccess ==> ae != nil && valid(ae) && istype(ae.Value, *cacheItem) && dyn(ae.Value, *cacheItem) in fpOf(fe).entries && fpOf(fe).entries[dyn(ae.Value, *cacheItem)] == ae)
+// lfuparents(c, x, fx): every filed item points to its node - except that x may (also) be filed under fx without pointing
+// there: the state in the middle of increment, between filing x under its new node and unfiling it from the old one
+//@ spec fn lfuparents(c *lfu, x *cacheItem, fx *list.Element) bool = forall fe *list.Element, it *cacheItem :: filed(c, fe, it) ==> it.parent == fe || (it == x && fe == fx)
+//@ spec fn lfuinv(c *lfu) bool = lfunodes(c) && lfufiles(c) && lfuparents(c, nil, nil)
+//@ immutable (frequencyParent).frequency
+
+//@ func (*lfu).Init
+//@   names c, capacity
+//@   facet C15
+//@   safety C15
+//@   requires c != nil
+//@   modifies c.cap, c.frequencies
+//@   ensures lfuinv(c) && c.cap == capacity && llen(c.frequencies) == 0 && fresh(c.frequencies)
+//@   ensures forall it *cacheItem :: !lfuhas(c, it)
+
+//@ func (*lfu).Capacity
+//@   names c
+//@   facet C15
+//@   safety C15
+//@   requires c != nil
+//@   ensures result == c.cap
+
+//@ func (*lfu).Victim
+//@   names c
+//@   facet C15
+//@   safety C15
+//@   requires c != nil && lfuinv(c)
+//@   ensures (result == nil) == (llen(c.frequencies) == 0)
+//@   ensures result != nil ==> lfuhas(c, result)
+//@   ensures [C15:lfu-victim-has-the-lowest-frequency] result != nil ==> (forall it *cacheItem :: lfuhas(c, it) ==> fpOf(result.parent).frequency <= fpOf(it.parent).frequency)
+//@   ensures [C15:lfu-victim-is-the-least-recently-used-of-its-frequency] result != nil ==> (forall it *cacheItem :: lfuhas(c, it) && it.parent == result.parent ==> erank(fpOf(result.parent).entries[result]) <= erank(fpOf(it.parent).entries[it]))
+
+//@ func (*lfu).delete
+//@   names c, frequency, item
+//@   facet C15
+//@   safety C15
+//@   requires c != nil && lfunodes(c) && lfufiles(c) && lfuparents(c, item, frequency) && item != nil && filed(c, frequency, item)
+//@   modifies elist(old(fpOf(frequency).entries[item])), llen(old(fpOf(frequency).byAccess)), fpOf(frequency).entries[*], fpOf(frequency).entries, fpOf(frequency).byAccess, elist(frequency), llen(c.frequencies)
+//@   ensures [C15:lfu-unfiled-item-is-gone-from-its-node] !filed(c, frequency, item)
+//@   ensures [C15:lfu-delete-unfiles-nothing-else] forall fe *list.Element, it *cacheItem :: (it != item || fe != frequency) ==> filed(c, fe, it) == old(filed(c, fe, it))
+//@   ensures [C15:lfu-delete-keeps-the-representation] lfunodes(c) && lfufiles(c) && lfuparents(c, item, frequency)
+
+//@ func (*lfu).Remove
+//@   names c, item
+//@   facet C15
+//@   safety C15
+//@   requires c != nil && lfuinv(c) && item != nil && lfuhas(c, item)
+//@   modifies elist, llen, all frequencyParent.entries, all frequencyParent.byAccess, fpOf(item.parent).entries[*]
+//@   ensures [C15:lfu-keeps-its-representation] lfuinv(c)
+//@   ensures [C15:lfu-removed-item-is-no-longer-tracked] !lfuhas(c, item)
+//@   ensures [C15:lfu-remove-touches-no-other-item] forall it *cacheItem :: it != item ==> lfuhas(c, it) == old(lfuhas(c, it))
+
+//@ func (*lfu).increment
+//@   names c, item
+//@   facet C15
+//@   safety C15
+//@   requires c != nil && lfuinv(c) && item != nil && valid(item) && (item.parent == nil || lfuhas(c, item)) && (forall fe *list.Element :: !filed(c, fe, item) || fe == item.parent)
+//@   opt no-frame
+//@   ensures [C15:lfu-keeps-its-representation] lfuinv(c)
+//@   ensures [C15:lfu-touched-item-is-tracked] lfuhas(c, item)
+//@   ensures [C15:lfu-touch-raises-the-frequency-by-one] fpOf(item.parent).frequency == (if old(item.parent) == nil then 1 else old(fpOf(item.parent).frequency) + 1)
+//@   ensures [C15:lfu-touch-moves-no-other-item] forall it *cacheItem :: it != item ==> lfuhas(c, it) == old(lfuhas(c, it)) && it.parent == old(it.parent)
+//@   ensures [C15:lfu-touched-item-is-the-most-recent-of-its-frequency] forall it *cacheItem :: lfuhas(c, it) && it != item && it.parent == item.parent ==> erank(fpOf(it.parent).entries[it]) < erank(fpOf(item.parent).entries[item])
+
+//@ func (*lfu).Access
+//@   names c, item
+//@   facet C15
+//@   safety C15
+//@   opt no-frame
+//@   requires c != nil && lfuinv(c) && item != nil && lfuhas(c, item)
+//@   ensures [C15:lfu-keeps-its-representation] lfuinv(c)
+//@   ensures [C15:lfu-accessed-item-stays-tracked-one-frequency-up] lfuhas(c, item) && fpOf(item.parent).frequency == old(fpOf(item.parent).frequency) + 1
+//@   ensures [C15:lfu-access-moves-no-other-item] forall it *cacheItem :: it != item ==> lfuhas(c, it) == old(lfuhas(c, it)) && it.parent == old(it.parent)
+//@   ensures [C15:lfu-accessed-item-is-the-most-recent-of-its-frequency] forall it *cacheItem :: lfuhas(c, it) && it != item && it.parent == item.parent ==> erank(fpOf(it.parent).entries[it]) < erank(fpOf(item.parent).entries[item])
+
+//@ func (*lfu).Admit
+//@   names c, item
+//@   facet C15
+//@   safety C15
+//@   opt no-frame
+//@   requires c != nil && lfuinv(c) && item != nil && valid(item) && item.parent == nil && (forall fe *list.Element :: !filed(c, fe, item))
+//@   ensures [C15:lfu-keeps-its-representation] lfuinv(c)
+//@   ensures [C15:lfu-admitted-item-is-tracked-with-frequency-one] lfuhas(c, item) && fpOf(item.parent).frequency == 1
+//@   ensures [C15:lfu-admit-moves-no-other-item] forall it *cacheItem :: it != item ==> lfuhas(c, it) == old(lfuhas(c, it)) && it.parent == old(it.parent)
+
+//@ func (*lfu).Close
+//@   names c
+//@   facet C15
+//@   safety C15
+//@   requires c != nil
+//@   modifies c.cap, c.frequencies
